@@ -34,6 +34,16 @@ Inductive case : Set :=
 | KTurnAuth (txid user realm nonce pass : list Z) (out : list Z)
 | KTurnDestroy (txid user realm nonce pass : list Z) (out : list Z)
 | KProbe (txid : list Z) (out : list Z)
+(* the last request of the Allocate retry loop after the given challenge history (realm, nonce) *)
+| KTurnAllocN (txid user pass : list Z) (hist : list (list Z * list Z)) (out : list Z)
+| KTurnPerm (txid user realm nonce pass : list Z) (peer : addr) (out : list Z)
+| KTurnBind (txid : list Z) (idx ch : Z) (user realm nonce pass : list Z) (peer : addr) (out : list Z)
+| KTurnSend (txid user realm nonce pass : list Z) (peer : addr) (data : list Z) (out : list Z)
+| KChanData (ch : Z) (data : list Z) (out : list Z)
+(* the channel numbers of one client, ascending *)
+| KChanSeq (chs : list Z)
+(* one unit as TurnClient::send wrote it to a TCP stream *)
+| KTcpFrame (m : list Z) (out : list Z)
 (* priority of a gathered candidate of the given type (srflx via STUN probe, relay via TURN) *)
 | KPrioT (t : IceCandidateType) (component : Z) (out : Z).
 
@@ -98,6 +108,10 @@ Definition cand_eqb (a b : cand) : bool :=
   tok_eqb (c_transport a) (c_transport b) && opt_eqb TcpType_eqb (c_tcp a) (c_tcp b) &&
   opt_eqb saddr_eqb (c_raddr a) (c_raddr b) && (c_component a =? c_component b).
 
+Definition model_alloc_n (txid user pass : list Z) (hist : list (list Z * list Z)) : list Z :=
+  let n := S (length hist) in
+  last (alloc_loop hmac_sha1 md5 user pass n None (repeat txid n) (map Some hist)) [].
+
 (* ---- the model's answer, in the shape of the case *)
 Definition model_prio (kind c : Z) : Z :=
   if kind =? 0 then priority_for IceCandidateType_Host c
@@ -119,6 +133,13 @@ Definition model_out (c : case) : case :=
   | KTurnAuth txid u r n p _ => KTurnAuth txid u r n p (allocate_auth_bytes hmac_sha1 md5 txid u r n p)
   | KTurnDestroy txid u r n p _ => KTurnDestroy txid u r n p (destroy_bytes hmac_sha1 md5 txid u r n p)
   | KProbe txid _ => KProbe txid (probe_bytes hmac_sha1 txid)
+  | KTurnAllocN txid u p h _ => KTurnAllocN txid u p h (model_alloc_n txid u p h)
+  | KTurnPerm txid u r n p peer _ => KTurnPerm txid u r n p peer (perm_bytes hmac_sha1 md5 txid u r n p peer)
+  | KTurnBind txid i ch u r n p peer _ => KTurnBind txid i ch u r n p peer (bind_bytes hmac_sha1 md5 txid ch peer u r n p)
+  | KTurnSend txid u r n p peer d _ => KTurnSend txid u r n p peer d (send_bytes hmac_sha1 md5 txid u r n p peer d)
+  | KChanData ch d _ => KChanData ch d (udp_send (channel_data ch d))
+  | KChanSeq chs => KChanSeq (chan_seq (length chs) CHANNEL_FIRST)
+  | KTcpFrame m _ => KTcpFrame m (tcp_send m)
   | KPrioT t c _ => KPrioT t c (priority_for t c)
   end.
 
@@ -136,6 +157,13 @@ Definition check_case (c : case) : bool :=
   | KTurnAuth txid u r n p out => list_eqb (allocate_auth_bytes hmac_sha1 md5 txid u r n p) out
   | KTurnDestroy txid u r n p out => list_eqb (destroy_bytes hmac_sha1 md5 txid u r n p) out
   | KProbe txid out => list_eqb (probe_bytes hmac_sha1 txid) out
+  | KTurnAllocN txid u p h out => list_eqb (model_alloc_n txid u p h) out && (Z.of_nat (length h) <? ALLOC_MAX_ATTEMPTS)
+  | KTurnPerm txid u r n p peer out => list_eqb (perm_bytes hmac_sha1 md5 txid u r n p peer) out
+  | KTurnBind txid i ch u r n p peer out => list_eqb (bind_bytes hmac_sha1 md5 txid ch peer u r n p) out
+  | KTurnSend txid u r n p peer d out => list_eqb (send_bytes hmac_sha1 md5 txid u r n p peer d) out
+  | KChanData ch d out => list_eqb (udp_send (channel_data ch d)) out
+  | KChanSeq chs => list_eqb (chan_seq (length chs) CHANNEL_FIRST) chs
+  | KTcpFrame m out => list_eqb (tcp_send m) out
   | KPrioT t c out => priority_for t c =? out
   end.
 
